@@ -42,7 +42,8 @@ EXPLANATION = (
     "protocol; the raw transport is written only with bio_read output. "
     "(R2, abort) transport.abort() - which discards queued output - is not reachable in the manual TLS classes once the handshake may be complete, nor in the inner protocol after a response write. "
     "(R6) listeners do not shorten asyncio's TLS shutdown grace period. "
-    "(R7) = C13.E3 client cap on body bytes. (R8) = C07.S4 pump: every decrypted record is handed over at once."
+    "(R7) = C13.E3 client cap on body bytes. (R8) = C07.S4 pump: every decrypted record is handed over at once. "
+    "(R9) = C13.E2: the client hands out the received body bytes as bytes / decoded text for 2x statuses."
 )
 
 PARTIAL_WRITE = {
